@@ -106,6 +106,8 @@ def gen_project(r, impl, legacy=False, max_files=5, allow_mixed=True, n_files=No
             occs += [r.randrange(len(pats)) for _ in range(r.choice([0, 0, 1, 2]))]
         r.shuffle(occs)
         lines = []
+        if r.random() < 0.15:
+            lines.append([Seg("text", "\ufeff// file starting with a UTF-8 byte order mark")])
         for _ in range(r.choice([0, 1, 3])):
             lines.append([Seg("text", r.choice(FILLER))])
         while occs:
@@ -127,7 +129,7 @@ def gen_project(r, impl, legacy=False, max_files=5, allow_mixed=True, n_files=No
         if r.random() < 0.15:
             fs.entry_repeated = True
         files.append(fs)
-    return dict(vp=vp, flags=list(flags), old=old, files=files, date=d, legacy=legacy, cfg_prefix=r.choice(CFG_PREFIXES))
+    return dict(vp=vp, flags=list(flags), old=old, files=files, date=d, legacy=legacy, cfg_prefix=r.choice(CFG_PREFIXES), key_comment=r.random() < 0.25)
 
 
 def to_temp_project(project, spec, **kw):
@@ -145,6 +147,7 @@ def to_temp_project(project, spec, **kw):
         else:
             files[fs.path] = list(fs.patterns)
     kw.setdefault("cfg_prefix", spec.get("cfg_prefix", "").format(q='"'))
+    kw.setdefault("key_comment", spec.get("key_comment", False))
     prj = project.TempProject(version_pattern=spec["vp"], current_version=spec["old"], files=files, **kw)
     return prj
 
